@@ -1,10 +1,16 @@
 #!/bin/sh
-# Offline setup: nothing to download. Warms the Verus toolchain and (when present) builds the replay crate.
+# Offline setup: nothing is downloaded.  Builds the replay crate and warms the Kani dependency caches so that the
+# quick checks only recompile the repository's own crate.  Every step is best-effort: a failed warm-up only makes the
+# first check slower (or degrades replay to `no-failing-input-found`), it never changes a verdict.
 cd "$(dirname "$0")" || exit 1
 mkdir -p .work .cache evidence replays
 verus --version >/dev/null 2>&1 || { echo "verus not on PATH"; exit 1; }
+export CARGO_NET_OFFLINE=true RUSTC_WRAPPER=
 if [ -f replay/Cargo.toml ]; then
   cp /repo/Cargo.lock replay/Cargo.lock 2>/dev/null
-  (cd replay && CARGO_TARGET_DIR=../.cache/replay-target CARGO_NET_OFFLINE=true RUSTC_WRAPPER= cargo build --offline --release -q) || echo "replay crate build failed (replay degrades to no-failing-input-found)"
+  (cd replay && CARGO_TARGET_DIR=../.cache/replay-target cargo build --offline --release -q) || echo "replay crate build failed (replay degrades to no-failing-input-found)"
+fi
+if command -v cargo-kani >/dev/null 2>&1 || cargo kani --version >/dev/null 2>&1; then
+  timeout 2400 python3 -m engine.kani_run wal_kani seg_kani list_kani --tier quick >/dev/null 2>&1 || echo "kani warm-up incomplete (first Kani check will build its cache)"
 fi
 exit 0
